@@ -87,6 +87,7 @@ let () =
                  st := st';
                  Buffer.add_string out ("g:" ^ show_comps a ^ "|")
                | ["F"] -> st := oop_finish ch !st
+               | ["K"; _] -> st := oop_finish ch !st
                | _ -> ()) ops;
              let st' = oop_finish ch !st in
              Buffer.add_string out ("f:" ^ hex_of_bytes (raw_layout x86_64 ty sex st'.o_old))
@@ -105,6 +106,10 @@ let () =
                  st := s';
                  Buffer.add_string out ("g:" ^ show_comps a ^ "|")
                | ["F"] -> st := sie_reopen zero !st; mode := 0
+               | ["K"; p] ->
+                 (* gd_seek in read mode: through the open handle, or a fresh read handle *)
+                 if !mode = 0 then begin st := sie_reopen zero !st; mode := 1 end;
+                 st := sie_seek zero false (z_of_int (int_of_string p)) !st
                | _ -> ()) ops;
              Buffer.add_string out ("f:" ^ hex_of_bytes (sie_layout x86_64 ty sex (recs !st)))
            end;
